@@ -9,7 +9,8 @@
          give; outcomes (timed out or not, latency) must lie inside the proved interval.
          Output: a list of failed checks (empty = agreement).
    1402: deadline arithmetic of makeDeadline on a clock that needs no extension:
-         current + durationToTicks(d + clockPeriod) with int64 wrap-around. *)
+         current + durationToTicks(d + clockPeriod) with int64 wrap-around.
+   1403: durationToTicks and the one-second slop of extendClock. *)
 From Verif Require Import Base.Prelude Base.Wire Model.Clock.
 
 Section Replay.
@@ -202,7 +203,15 @@ Definition run_deadline (args : list Z) : list Z :=
   | _ => bad_case
   end.
 
+(* 1403: x -> durationToTicks(x), durationToTicks(time.Second) (the constants the model hard-codes) *)
+Definition run_ticks (args : list Z) : list Z :=
+  match args with
+  | [x] => [ticks x; slop_ticks]
+  | _ => bad_case
+  end.
+
 Definition run14 (leg : Z) (args : list Z) : list Z :=
   if leg =? 1401 then run_replay args
   else if leg =? 1402 then run_deadline args
+  else if leg =? 1403 then run_ticks args
   else bad_case.
